@@ -9,7 +9,7 @@ for l in open('/verif/properties.jsonl'):
         break
 print(f"""You are helping to evaluate a verification effort for westes/flex (the lexical analyzer generator). Your job is to act as a realistic source of regressions.
 
-You have your own scratch git worktree of the flex repository at {wt} (already configured and built: `cd {wt} && make -j8` rebuilds, `cd {wt} && make -k -j8 check` runs the 257-test suite in about 15-40 s and prints a summary with '# PASS:' / '# FAIL:' lines). Work ONLY inside {wt} and /tmp/seed_{pid} (create it). Do not read or touch /verif or /repo. There is no network.
+You have your own scratch git worktree of the flex repository at {wt} (already configured and built: `cd {wt} && make -j8` rebuilds, `cd {wt} && make -C tests clean && make -k -j8 check` runs the 257-test suite (the clean matters: without it stale test scanners are reused and the suite passes vacuously) in about 15-40 s and prints a summary with '# PASS:' / '# FAIL:' lines). Work ONLY inside {wt} and /tmp/seed_{pid} (create it). Do not read or touch /verif or /repo. There is no network.
 
 Here is a semantic property flex is supposed to satisfy:
 
@@ -21,7 +21,7 @@ Code it is anchored in: {', '.join(p['anchors']['files'])}
 
 Produce up to THREE independent changes to the flex sources under {wt}/src (generator C files, parse.y, scan.l, the skeletons *.skl, FlexLexer.h), each of which:
   1. BREAKS the property above (the generated scanners, or flex itself, then behave in a way the statement forbids),
-  2. still compiles (flex builds, bootstrap comparison of stage1scan.c/stage2scan.c included) and still passes the whole existing test suite (`make -k -j8 check` shows 257 PASS, 0 FAIL) -- run it to be sure,
+  2. still compiles (flex builds, bootstrap comparison of stage1scan.c/stage2scan.c included) and still passes the whole existing test suite (`make -C tests clean && make -k -j8 check` shows 257 PASS, 0 FAIL) -- run it to be sure,
   3. is realistic: the kind of slip a maintainer could make in a refactor (off-by-one, wrong comparison, dropped special case, stale state not saved or restored, wrong variable, two sites that each look fine alone) -- not sabotage that ordinary use would expose at once,
   4. needs something SPECIFIC to manifest: an unusual input, a particular buffer/refill boundary, a multi-step sequence of API calls, a particular option combination, a fault at a particular point, a particular interleaving. Prefer the three changes to live in different mechanisms/files.
 
